@@ -225,15 +225,23 @@ def call_by_contract(it, c, fn, bound):
     # exceptional outcomes
     for exc_cls, (kind, cfn) in c.raises.items():
         cond = it.truth(eval_clause(it, cfn, ns)) if cfn is not None else True
+        def raise_it():
+            # what is known when the callee raises: its exceptional postconditions (and, unless it
+            # declares exc_havoc, that nothing in its frame changed)
+            if c.exc_havoc:
+                havoc_frame(it, c, bound)
+            ns_e = dict(ns)
+            ns_e['exc'] = exc_cls
+            for _n, efn in c.exc_ensures:
+                ctx.assume(it.truth(eval_clause(it, efn, ns_e)))
+            raise I.PyRaise(exc_cls, ('<by contract>',))
         if kind == 'iff':
             if ctx.decide(cond):
-                raise I.PyRaise(exc_cls, ('<by contract>',))
+                raise_it()
         else:  # 'onlyif' : may raise when cond holds
             may = mk_bool(ctx.fresh_bool(f'raises_{fn.__name__}_{exc_cls.__name__}'))
             if ctx.decide(b_and(cond, may)):
-                if c.exc_havoc:
-                    havoc_frame(it, c, bound)
-                raise I.PyRaise(exc_cls, ('<by contract>',))
+                raise_it()
     if c.functional:
         return eval_clause(it, c.result_fn, ns)
     # general: havoc the frame, fresh result, assume ensures
@@ -263,28 +271,82 @@ def _obj_shape(shape):
     return shape
 
 
+def _sub_shape(shape, name):
+    from . import dsl
+    shape = _obj_shape(shape)
+    if isinstance(shape, (dsl.Obj, dsl.Ext)):
+        return shape.fields.get(name)
+    return None
+
+
+def _fields_of(v):
+    from .ext import SExt
+    if isinstance(v, (SObj, SExt)):
+        return v.fields
+    return None
+
+
 def havoc_frame(it, c, bound):
-    """Havoc every location named in `modifies`: 'param' (the whole object, by its shape) or
-    'param.field' (one field of an object parameter)."""
+    """Havoc every location named in `modifies`: 'param' (the whole object, by its shape) or a
+    field path 'param.f.g' through objects / external objects."""
     for pname in c.modifies:
         parts = pname.split('.')
-        root = bound[parts[0]]
+        obj = bound[parts[0]]
         shape = _obj_shape(c.shape_of(parts[0], it.registry))
         if shape is None:
             raise EngineError(f'{c.qualname}: no shape to havoc {pname}')
         if len(parts) == 1:
-            shape.havoc(it.ctx, root, f'h_{pname}')
+            shape.havoc(it.ctx, obj, f'h_{pname}')
             continue
-        if len(parts) != 2 or not isinstance(root, SObj):
-            raise EngineError(f'{c.qualname}: unsupported frame path {pname}')
-        fshape = shape.fields.get(parts[1])
-        if fshape is None:
+        for part in parts[1:-1]:
+            shape = _sub_shape(shape, part)
+            flds = _fields_of(obj)
+            if shape is None or flds is None or part not in flds:
+                raise EngineError(f'{c.qualname}: unsupported frame path {pname}')
+            obj = flds[part]
+        leaf = parts[-1]
+        fshape = _sub_shape(shape, leaf)
+        flds = _fields_of(obj)
+        if fshape is None or flds is None:
             raise EngineError(f'{c.qualname}: no shape for {pname}')
-        cur = root.fields.get(parts[1])
-        if isinstance(cur, Mut) and not (isinstance(cur, SObj) and cur.frozen):
+        cur = flds.get(leaf)
+        from . import dsl
+        if isinstance(cur, Mut) and not (isinstance(cur, SObj) and cur.frozen) and \
+                not isinstance(fshape, (dsl.Opt, dsl.OneOf, dsl.Const)):
             fshape.havoc(it.ctx, cur, f'h_{pname}')
         else:
-            root.fields[parts[1]] = fshape.fresh(it.ctx, f'h_{pname}')
+            flds[leaf] = fshape.fresh(it.ctx, f'h_{pname}')
+
+
+def _same_except(it, v, ov, paths, prefix):
+    """deep_same(v, ov) except below the given field paths (tuples of names)."""
+    if prefix in paths:
+        return True
+    if not any(p[:len(prefix)] == prefix for p in paths):
+        return deep_same(it, v, ov)
+    fv, fo = _fields_of(v), _fields_of(ov)
+    if fv is None or fo is None:
+        return deep_same(it, v, ov)
+    out = []
+    for k in fv:
+        if k not in fo:
+            out.append(False)
+            continue
+        out.append(_same_except(it, fv[k], fo[k], paths, prefix + (k,)))
+    return b_and(*out)
+
+
+def frame_condition(it, c, bound, old):
+    """Everything reachable from the parameters that is NOT in `modifies` is unchanged."""
+    conj = []
+    paths = {tuple(m.split('.')) for m in c.modifies}
+    for pname, v in bound.items():
+        if (pname,) in paths or (c.is_init and pname == 'self'):
+            continue
+        ov = old.fields[pname]
+        if isinstance(v, Mut) and not (isinstance(v, SObj) and v.frozen):
+            conj.append(_same_except(it, v, ov, paths, (pname,)))
+    return b_and(*conj)
 
 
 def separation_ok(root):
@@ -313,32 +375,6 @@ def separation_ok(root):
         elif isinstance(v, SList):
             stack.extend(v.items)
     return True
-
-
-def frame_condition(it, c, bound, old):
-    """Everything reachable from the parameters that is NOT in `modifies` is unchanged."""
-    conj = []
-    whole = {m for m in c.modifies if '.' not in m}
-    byroot = {}
-    for m in c.modifies:
-        if '.' in m:
-            r, f = m.split('.', 1)
-            byroot.setdefault(r, set()).add(f)
-    for pname, v in bound.items():
-        if pname in whole or (c.is_init and pname == 'self'):
-            continue
-        ov = old.fields[pname]
-        if isinstance(v, SObj) and not v.frozen and pname in byroot and isinstance(ov, SObj):
-            for k in v.fields:
-                if k in byroot[pname]:
-                    continue
-                if k not in ov.fields:
-                    conj.append(False)
-                    continue
-                conj.append(deep_same(it, v.fields[k], ov.fields[k]))
-        elif isinstance(v, Mut):
-            conj.append(deep_same(it, v, ov))
-    return b_and(*conj)
 
 
 # ------------------------------------------------------------------------------------------------
@@ -523,6 +559,31 @@ def intrinsic(it, name, args, kwargs):
             for b in range(a + 1, len(args)):
                 out.append(b_not(it.eq(args[a], args[b])))
         return b_and(*out)
+    if name == 'bytes_seq':
+        from . import ext as _ext
+        from .dsl import IntElem
+        b = args[0]
+        if isinstance(b, bytes):
+            return SList(list(b))
+        return SSeq(b.n, b.arr, IntElem())
+    if name in ('sock_data', 'sock_pos', 'sock_sent', 'utf8', 'new_socket'):
+        from . import ext as _ext
+        from .dsl import IntElem
+        if name == 'sock_data':
+            return args[0].fields['data']
+        if name == 'sock_pos':
+            return args[0].fields['pos']
+        if name == 'sock_sent':
+            return args[0].fields['sent']
+        if name == 'utf8':
+            x = args[0]
+            if isinstance(x, _ext.SDecoded):
+                return SSeq(x.raw.n, x.raw.arr, IntElem())
+            if isinstance(x, str):
+                return SList(list(x.encode('utf-8')))
+            raise EngineError('utf8() of a structured string')
+        data, pos = args
+        return _ext.SExt('socket', dict(data=data, pos=pos, sent=SList([]), closed=False))
     if name == 'set_ite':
         c, a, b = args
         c = it.truth(c)
@@ -623,6 +684,11 @@ def deep_same(it, a, b, seen=None):
         if len(a) != len(b):
             return False
         return b_and(*[deep_same(it, x, y, seen) for x, y in zip(a, b)])
+    from .ext import SExt
+    if isinstance(a, SExt) and isinstance(b, SExt):
+        if a.kind != b.kind or a.fields.keys() != b.fields.keys():
+            return False
+        return b_and(*[deep_same(it, a.fields[k], b.fields[k], seen) for k in a.fields])
     if isinstance(a, SSeq) and isinstance(b, SSeq):
         # equal as Python lists: same length and same elements below the length
         if isinstance(a.arr, z3.ExprRef) and a.arr.eq(b.arr):
